@@ -73,11 +73,13 @@ fn input(with_names: bool, with_producers: Option<&[(&str, &[(&str, &str)])]>, w
         }
         m.section(&p);
     }
+    let wasm = m.finish();
     if with_dwarf {
-        // a minimal, well-formed (empty) set of DWARF sections: gimli accepts empty .debug_info
-        m.section(&CustomSection { name: ".debug_str".into(), data: (&b"abc\0"[..]).into() });
+        // real DWARF (one subprogram + one line row per instruction of `f`), synthesized with gimli::write
+        let l = crate::dwarf::layout(&wasm).expect("layout");
+        return crate::dwarf::attach(wasm, &l, 4, false, false).expect("attach").0;
     }
-    m.finish()
+    wasm
 }
 
 pub fn config(_args: &[String]) -> Result<Value> {
@@ -92,6 +94,7 @@ pub fn config(_args: &[String]) -> Result<Value> {
                 for gen_prod in [false, true] {
                     for gen_dwarf in [false, true] {
                         for with_dwarf in [false, true] {
+                          for pct in [false, true] {
                             checked += 1;
                             let wasm = input(with_names, *prods, with_dwarf, true);
                             let calls = Arc::new(AtomicUsize::new(0));
@@ -100,7 +103,8 @@ pub fn config(_args: &[String]) -> Result<Value> {
                             let prods2 = *prods;
                             let r = std::panic::catch_unwind(move || -> Result<Option<String>> {
                                 let mut cfg = walrus::ModuleConfig::new();
-                                cfg.generate_name_section(gen_names).generate_producers_section(gen_prod).generate_dwarf(gen_dwarf);
+                                // (preserve_code_transform is a switch of its own; generate_dwarf(true) turns it on as well)
+                                cfg.generate_name_section(gen_names).generate_producers_section(gen_prod).preserve_code_transform(pct).generate_dwarf(gen_dwarf);
                                 cfg.on_parse(move |_, _| { c2.fetch_add(1, Ordering::SeqCst); Ok(()) });
                                 let mut m = cfg.parse(&w2)?;
                                 let out = m.emit_wasm();
@@ -108,7 +112,9 @@ pub fn config(_args: &[String]) -> Result<Value> {
                                 let has = |n: &str| s.iter().any(|x| x == n);
                                 if has("custom:name") != (gen_names && with_names) { return Ok(Some(format!("name section present={} but generate_name_section={gen_names}, input had names={with_names}", has("custom:name")))); }
                                 if has("custom:producers") != gen_prod { return Ok(Some(format!("producers section present={} but generate_producers_section={gen_prod}", has("custom:producers")))); }
-                                if has("custom:.debug_str") && !gen_dwarf { return Ok(Some("DWARF section carried over although DWARF generation is off".into())); }
+                                if s.iter().any(|x| x.starts_with("custom:.debug")) && !gen_dwarf { return Ok(Some("DWARF section carried over although DWARF generation is off".into())); }
+                                if with_dwarf && gen_dwarf && !(has("custom:.debug_info") && has("custom:.debug_line")) { return Ok(Some("DWARF generation is on and the input has DWARF, but the output has no .debug_info / .debug_line".into())); }
+                                if !with_dwarf && s.iter().any(|x| x.starts_with("custom:.debug")) { return Ok(Some("DWARF sections appear although the input has none".into())); }
                                 for n in ["type", "function", "export", "code", "custom:other"] { if !has(n) { return Ok(Some(format!("section {n} missing"))); } }
                                 if s.iter().filter(|x| *x == "custom:other").count() != 1 { return Ok(Some("custom section `other` not emitted exactly once".into())); }
                                 if gen_prod {
@@ -148,8 +154,9 @@ pub fn config(_args: &[String]) -> Result<Value> {
                                 Err(_) => Some("panic".into()),
                             };
                             if let Some(w) = what {
-                                failures.push(json!({"input": {"names": with_names, "producers": pi, "dwarf": with_dwarf}, "config": {"names": gen_names, "producers": gen_prod, "dwarf": gen_dwarf}, "what": w}));
+                                failures.push(json!({"input": {"names": with_names, "producers": pi, "dwarf": with_dwarf}, "config": {"names": gen_names, "producers": gen_prod, "dwarf": gen_dwarf, "preserve_code_transform": pct}, "what": w}));
                             }
+                          }
                         }
                     }
                 }
